@@ -227,7 +227,8 @@ pub enum Expr {
     Index { obj: Box<Expr>, key: Box<Expr> },
     Field { obj: Box<Expr>, name: String },
     Call { f: Box<Expr>, args: Vec<Expr>, sugar: CallSugar },
-    MethodCall { obj: Box<Expr>, name: String, args: Vec<Expr>, sugar: CallSugar },
+    /// `types`: explicit type instantiation of the method, `obj:name<<T>>(args)`
+    MethodCall { obj: Box<Expr>, name: String, types: Option<Vec<TypeArg>>, args: Vec<Expr>, sugar: CallSugar },
     Function { attrs: Vec<Attribute>, func: Box<FuncBody> },
     Paren(Box<Expr>),
     Unary(UnOp, Box<Expr>),
